@@ -292,6 +292,10 @@ class ASPath(Attribute):
         has_large_asn = False
         astrans = []
 
+        # RFC 6793 3 / 4.2.2: the AS4_PATH is built from the AS_SEQUENCE and AS_SET segments only,
+        # confederation segments are not valid in it
+        plain = tuple(content for content in self.aspath if isinstance(content, (SET, SEQUENCE)))
+
         for content in self.aspath:
             local = content.__class__()
             for asn in content:
@@ -299,13 +303,14 @@ class ASPath(Attribute):
                     local.append(asn)
                 else:
                     local.append(AS_TRANS)
-                    has_large_asn = True
+                    if isinstance(content, (SET, SEQUENCE)):
+                        has_large_asn = True
             astrans.append(local)
 
         message = self._attribute(self._pack_segments_raw(tuple(astrans), asn4=False))
         if has_large_asn:
             # Add AS4_PATH for large ASNs
-            message += AS4Path._attribute(AS4Path._pack_segments_raw(self.aspath, asn4=True))
+            message += AS4Path._attribute(AS4Path._pack_segments_raw(plain, asn4=True))
 
         return message
 
